@@ -115,6 +115,7 @@ func TestVerifC16a(t *testing.T) {
 // ----------------------------------------------- C03a: sequential interleaving
 
 type c03Reader struct {
+	log       *commitLog // the log object the reader was created on (readers do not survive a reopen)
 	r         *Reader
 	start     int64
 	next      int64 // next offset the model expects this reader to deliver
@@ -234,18 +235,42 @@ func c03Hook(readersP *[]*c03Reader, ntP *bool, o *vfutil.Obs) func(x *clExec, o
 					o.Label("reader-start-capped-to-hw+1")
 				}
 			}
-			readers = append(readers, &c03Reader{r: r, start: start, next: next, blockedAt: -2})
+			readers = append(readers, &c03Reader{log: x.l, r: r, start: start, next: next, blockedAt: -2})
 			return nil, true
 		case "read":
+			if len(readers) == 0 {
+				return nil, true
+			}
+			// readers created on an earlier incarnation of the log, or positioned
+			// in segments that retention has deleted since, are dropped
+			live := readers[:0]
+			for _, rd := range readers {
+				if rd.log == x.l && !(x.trimmed && rd.next < x.m.oldest()) {
+					live = append(live, rd)
+				}
+			}
+			readers = live
 			if len(readers) == 0 {
 				return nil, true
 			}
 			rd := readers[op.Sel%len(readers)]
 			hb := make([]byte, 28)
 			for i := 0; i < op.N; i++ {
-				want := x.m.get(rd.next)
-				avail := want != nil && rd.next <= x.m.HW
+				// the next message at or after the reader's position (compaction
+				// may have removed offsets in between)
+				var want *mMsg
+				for _, mm := range x.m.all() {
+					if mm.Off >= rd.next {
+						want = mm
+						break
+					}
+				}
+				avail := want != nil && want.Off <= x.m.HW
 				if avail {
+					if want.Off != rd.next {
+						o.Label("parked-reader-skips-compacted-offsets")
+					}
+					rd.next = want.Off
 					ctx, cancel := context.WithTimeout(context.Background(), 20*time.Second)
 					m, off, ts, ep, err := rd.r.ReadMessage(ctx, hb)
 					cancel()
